@@ -6,3 +6,7 @@ os.environ.setdefault('PYTHONHASHSEED', '0')
 # /repo's working tree is what gets explored (editable install points there as well)
 if '/repo' not in sys.path:
     sys.path.insert(0, '/repo')
+
+# the solver stand-in must be in place before chi constructs any simulation
+from .env import refsim as _refsim  # noqa: E402
+_refsim.install()
